@@ -21,7 +21,7 @@ meta = {
    'demo_unchanged_exit': grab('demo_unchanged_exit'), 'demo_changed_exit': grab('demo_changed_exit'),
    'suite_build_exit': grab('suite_build_exit'),
    'suite_exit': grab('suite_exit_isolated_reruns') if 'suite_exit_isolated_reruns' in log else (grab('suite_exit_second_run') if 'suite_exit_second_run' in log else grab('suite_exit')),
-   'suite_note': ('timing-based cases failed under machine load in the full runs and passed 3/3 when run alone: ' + ', '.join(sorted(set(re.findall(r'isolated (\S+)', log))))) if 'suite_exit_isolated_reruns' in log else '',
+   'suite_note': ('timing-based cases failed under machine load in the full runs and passed when run alone (see verify.log): ' + ', '.join(sorted(set(re.findall(r'isolated (\S+)', log))))) if 'suite_exit_isolated_reruns' in log else '',
    'result': 'confirmed' if 'RESULT confirmed' in log else 'NOT confirmed',
  },
  'checks_run': 'python3 tools/run_seed.py seeded/%s/patch.diff  (all registered checks on a scratch copy of /repo/include with the patch applied)' % sid,
